@@ -73,17 +73,21 @@ def _simplify_index(ix):
             yield ["sl", a, b, 1 if s > 0 else -1]
         if s == 1:
             yield ["sl", a, b, None]
+        if len(ix) > 4:
+            yield ["sl", a, b, s]
     elif t in ("list", "arr"):
         v = ix[1]
         for k in range(len(v)):
             yield [t, v[:k] + v[k + 1:]]
         if t == "arr":
             yield ["list", v]
+            if len(ix) > 2:
+                yield ["arr", v]
     elif t == "tup":
         for k in range(1, len(ix)):
             for alt in _simplify_index(ix[k]):
                 yield ix[:k] + [alt] + ix[k + 1:]
-    elif t == "npint":
+    elif t in ("npint", "int0d"):
         yield ["int", ix[1]]
 
 
